@@ -2,7 +2,7 @@
    driver: one input line = one case (features, surface declaration, operations), output =
    one line per operation. *)
 From NV Require Import Base.Util Base.Sexp Base.IntTy Base.FloatBits Base.Float Base.Expr
-     Macro.Surface Macro.Ast Macro.Parse Macro.Validate
+     Macro.Surface Macro.Ast Macro.Parse Macro.Validate Macro.Messages
      Sem.Guard Sem.Value Sem.Eval Sem.Conv Sem.Bytes Sem.ArbInt Sem.ArbStr Sem.ArbFloat Sem.Order Spec.GuardSpec Run.Lib Run.Decode.
 Local Open Scope string_scope.
 
@@ -73,6 +73,9 @@ Definition run_op (d : decl) (op : sexp) : string :=
           | _, _ => "rejected"
           end
       | _, _ => "bad_value" end
+  | L [A "msgs"] =>
+      concat_with " | " (map (fun v => vkind_name (vkind_of v) ++ "=" ++ msg_text (d_family d) (d_name d) (vkind_of v))
+                             (standard_validators d))
   | L [A "arb_range"] =>
       match arb_boundary d with
       | Some (lo, hi) => "range " ++ string_of_Z lo ++ " " ++ string_of_Z hi
